@@ -1,4 +1,5 @@
 """C17  Operations never modify their arguments (snapshot monitor x catalogue x aliasing-prone operands)."""
+import io
 import itertools
 import signal
 import pickle
@@ -20,7 +21,7 @@ CALL_BUDGET_S = 4
 META = {
     "rule": "every numpy callable registered by numpoly (function and ufunc registries, read at run time) x 14 generic "
             "argument patterns, every numpoly poly-function / constructor / operator / method / property, pickling and str, "
-            "x 18 operand forms chosen to make internal aliasing possible (operands already aligned with each other, the "
+            "x 21 operand forms chosen to make internal aliasing possible (operands already aligned with each other, the "
             "identical object passed twice, overlapping views of one buffer, 0-d, transposed views, bool/int/float/complex "
             "dtypes, polynomial mixed with ndarray/list); byte-level snapshots of every argument are compared before and "
             "after each call, whether it returned or raised; out= targets and the copyto destination are the only exemption "
@@ -28,7 +29,7 @@ META = {
             "numpoly function is exercised with a menu of values chosen by the kind of its default (bool flipped, None -> 16 "
             "values, int, float, str menus), and display runs under 7 numpy print-option environments. distinct = (callable, "
             "pattern, operand form).",
-    "bounds": {"operand_forms": 18, "patterns": 14, "keyword_menu_values": 16, "print_environments": 7},
+    "bounds": {"operand_forms": 21, "patterns": 14, "keyword_menu_values": 16, "print_environments": 7},
     "assumptions": ["an argument is observed through shape, strides, dtype, names, keys and raw bytes (base-class view)"],
 }
 
@@ -62,6 +63,8 @@ def operand_forms():
     forms.append(("aligned float (2,2)", pair((2, 2), "f8")))
     forms.append(("aligned complex 0-d", pair((), "c16")))
     forms.append(("aligned int (2,2) T views", pair((2, 2), "i8", "T")))
+    forms.append(("aligned int (3,) terms stored unsorted", pair((3,), "i8", "unsorted")))
+    forms.append(("aligned float (2,2) unsorted, zero term, unused name", pair((2, 2), "f8", "unsorted+zeroterm+unusedname")))
 
     def unsorted():
         a, b = pair((3,), "i8")()
@@ -170,6 +173,20 @@ def registry():
     return out
 
 
+def _save_load(a):
+    f = io.BytesIO()
+    numpoly.save(f, a)
+    f.seek(0)
+    return numpoly.load(f)
+
+
+def _savetxt_loadtxt(a):
+    f = io.StringIO()
+    numpoly.savetxt(f, a)
+    f.seek(0)
+    return numpoly.loadtxt(f)
+
+
 def extra_calls():
     """numpoly-specific callables: (label, g(a, b))"""
     q = lambda: numpoly.variable(2)  # noqa: E731
@@ -206,7 +223,12 @@ def extra_calls():
         ("todict", lambda a, b: a.todict()), ("a[0]", lambda a, b: a[0]), ("a[::-1]", lambda a, b: a[::-1]), ("iter", lambda a, b: list(a)),
         ("str", lambda a, b: str(a)), ("repr", lambda a, b: repr(a)), ("pickle", lambda a, b: pickle.loads(pickle.dumps(a))),
         ("copy.copy", lambda a, b: copy.copy(a)), ("deepcopy", lambda a, b: copy.deepcopy(a)),
-        ("to_sympy", lambda a, b: numpoly.to_sympy(a)), ("bool(any)", lambda a, b: bool(numpoly.any(a))),
+        ("to_sympy", lambda a, b: numpoly.to_sympy(a)),
+        ("savetxt", lambda a, b: numpoly.savetxt(io.StringIO(), a)), ("numpy.savetxt", lambda a, b: numpy.savetxt(io.StringIO(), a)),
+        ("savetxt fmt", lambda a, b: numpoly.savetxt(io.StringIO(), a, fmt="%g", header="h", delimiter=",")),
+        ("save", lambda a, b: numpoly.save(io.BytesIO(), a)), ("savez", lambda a, b: numpoly.savez(io.BytesIO(), a, b=b)),
+        ("savez_compressed", lambda a, b: numpoly.savez_compressed(io.BytesIO(), x=a)), ("numpy.save", lambda a, b: numpy.save(io.BytesIO(), a)),
+        ("save and load", lambda a, b: _save_load(a)), ("savetxt and loadtxt", lambda a, b: _savetxt_loadtxt(a)), ("bool(any)", lambda a, b: bool(numpoly.any(a))),
         ("unsupported fft", lambda a, b: numpy.fft.fft(a)), ("unsupported sin", lambda a, b: numpy.sin(a)),
         ("bad call kw", lambda a, b: a(q9=1)), ("bad shapes", lambda a, b: a + numpy.ones((5, 7))),
         ("true_divide by nonconstant", lambda a, b: numpy.true_divide(a, numpoly.symbols("q0"))),
@@ -379,10 +401,11 @@ def cases(tier, seed):
         for i0 in range(0, nkw, 400):
             out.append({"k": "keywords", "form": fi, "i0": i0, "i1": min(nkw, i0 + 400)})
         out.append({"k": "printing", "form": fi})
-        for i0 in range(0, len(names), 12):
-            out.append({"k": "registry", "form": fi, "i0": i0, "i1": min(len(names), i0 + 12)})
+        for i0 in range(0, len(names), 6):
+            out.append({"k": "registry", "form": fi, "i0": i0, "i1": min(len(names), i0 + 6)})
         out.append({"k": "extra", "form": fi})
         out.append({"k": "targets", "form": fi})
+    out.sort(key=lambda c: {"registry": 0, "keywords": 1, "extra": 2}.get(c["k"], 3))   # the expensive kinds first
     return out
 
 
